@@ -615,6 +615,10 @@ func (w *World) recordOutcome(ps *pairState, err error) {
 	w.converges++
 	w.mu.Unlock()
 	w.stat("outcome_"+name, 1)
+	if err == nil {
+		w.okOutcomes++
+		w.applyScriptChain()
+	}
 	nData := 0
 	for _, ci := range ps.callCommits {
 		if len(ci.Inserted[cursorTable]) > 0 {
